@@ -21,3 +21,10 @@ META["C12"] = {
     "note": "One step from an arbitrary well-formed state covers histories of any length within the name pool and depth bound; state shapes, table contents, operation, target and names are enumerated by forking (payloads symbolic). Trusted: go/ssa, symgo semantics incl. its reflect and RWMutex models.",
     "technique": "symbolic execution of go/ssa + SMT (z3), differential step lemma against a reference model, native replay",
 }
+
+META["C13"] = {
+    "text": "D1: a lock monitor on the symbolic execution of every exported Env method shows every read of values/types happens under rwMutex (read or write mode), every write under the write lock, locks are released on all paths and never re-acquired. D2: two goroutines with one symbolic operation each on a shared scope are explored under all interleavings at lock-operation granularity (bounded context switches); results and final state must equal one of the two sequential orders on a reference model (solver-decided over the symbolic payloads).",
+    "design_ref": "DESIGN.md §5 C13",
+    "note": "The race-detector-under-stress half of the property is not applicable to this technique (Go runtime and memory model are not encoded); lock discipline => race freedom is the trusted step. D1 candidates are replayed under go test -race, D2 candidates by a native stress run with yields injected at every lock operation.",
+    "technique": "symbolic execution of go/ssa + SMT (z3), lock-discipline monitor, bounded schedule exploration with linearizability oracle, native replay",
+}
